@@ -15,7 +15,7 @@ from frequenz.sdk.microgrid._power_distributing.request import Request
 ID = "C14"
 LEVEL = "model_checking"
 FUNCTIONS = ["PowerDistributingActor._run (routing)", "PowerDistributingActor._handle_task_completion", "PowerDistributingActor._process_request"]
-SHIMS = ["actor built with __new__ + the attributes the encoded methods read; the ComponentManager is a probe that logs enter/exit of distribute_power and blocks on a gate",
+SHIMS = ["actor built by its real constructor with the BatteryManager class replaced by a probe that logs enter/exit of distribute_power and blocks on a gate",
          "(a) inductive step: asyncio.create_task inside power_distributing is replaced by a recording fake, the done-callback is invoked the way asyncio invokes it",
          "(b) sequences: real asyncio tasks, real done-callbacks and a real frequenz.channels Broadcast on the async_solipsism virtual-time loop"]
 ASSUMPTIONS = ["finite state: the symbolic variables are event kinds/groups/outcomes; the solver's role is the case split",
@@ -23,13 +23,16 @@ ASSUMPTIONS = ["finite state: the symbolic variables are event kinds/groups/outc
                "(b) events: request for group g; completion (success or exception) of g's in-flight distribution; completion immediately followed, in the same event-loop "
                "iteration, by a new request for g; after the sequence every in-flight distribution is completed (drain)"]
 BOUNDS = {"quick": "(a) one step from every pre-state over 2 groups; (b) every sequence of 4 events over 2 groups", "thorough": "(b) 6 events"}
-OUTSIDE = "more than 2 groups; the real component managers (C15); cancellation of the actor while requests are in flight"
+OUTSIDE = "more than 2 groups (disjoint, or overlapping {1,2}/{2,3}); the real component managers (C15); cancellation of the actor while requests are in flight"
 BUDGET = {"quick": 300, "thorough": 900}
 G = [frozenset({1}), frozenset({2})]
 
 
-def req(g, n):
-    return Request(power=Power.from_watts(float(n)), component_ids=set(G[g]))
+GO = [frozenset({1, 2}), frozenset({2, 3})]   # overlapping, different groups
+
+
+def req(g, n, groups=None):
+    return Request(power=Power.from_watts(float(n)), component_ids=set((groups or G)[g]))
 
 
 class FakeTask:
@@ -76,12 +79,16 @@ class OneShotRx:
 
 
 def new_actor(mgr):
-    a = pdm.PowerDistributingActor.__new__(pdm.PowerDistributingActor)
-    a._name = "x"
-    a._tasks = set()
-    a._processing_tasks = {}
-    a._pending_requests = {}
-    a._component_manager = mgr
+    """The real constructor (so that every attribute it initialises exists), with the BatteryManager class replaced by the probe."""
+    from datetime import timedelta
+    from frequenz.client.microgrid import ComponentCategory
+    real_mgr = pdm.BatteryManager
+    pdm.BatteryManager = lambda *a, **k: mgr
+    try:
+        a = pdm.PowerDistributingActor(requests_receiver=OneShotRx([]), results_sender=None, component_pool_status_sender=None,
+                                       api_power_request_timeout=timedelta(seconds=5), component_category=ComponentCategory.BATTERY, name="x")
+    finally:
+        pdm.BatteryManager = real_mgr
     return a
 
 
@@ -152,9 +159,13 @@ def make_step(reach=False):
     return fn
 
 
-def make_seq(K, reach=False):
+def make_seq(K, reach=False, dups=False, overlap=False):
+    GR = GO if overlap else G
+
     def fn(ex):
         kinds_seen = {}
+        number = {}       # id(request object) -> request number (requests may have EQUAL content when dups=True)
+        keep = []
         log = []          # ("enter"|"exit", group, request number)
         ref_log = []
         gates = {}
@@ -167,8 +178,8 @@ def make_seq(K, reach=False):
                 pass
 
             async def distribute_power(self, request):
-                n = int(request.power.as_watts())
-                g = 0 if frozenset(request.component_ids) == G[0] else 1
+                n = number[id(request)]
+                g = 0 if frozenset(request.component_ids) == GR[0] else 1
                 log.append(("enter", g, n))
                 ev, fail = gates.setdefault(n, [asyncio.Event(), False])
                 await ev.wait()
@@ -186,6 +197,16 @@ def make_seq(K, reach=False):
             ref = [{"inflight": None, "pending": None} for _ in range(2)]
             counter = [0]
             last_issued = [None, None]
+
+            def mk(g, n):
+                # dups: the new request may have exactly the content (power) of the request currently in flight for the group
+                same = dups and ref[g]["inflight"] is not None and ref[g]["inflight"] != n and ex.flag(f"same_content_as_inflight{n}")
+                r = req(g, power_of[ref[g]["inflight"]] if same else n, GR)
+                power_of[n] = int(r.power.as_watts())
+                number[id(r)] = n
+                keep.append(r)
+                return r
+            power_of = {}
 
             def ref_request(g):
                 counter[0] += 1
@@ -214,7 +235,7 @@ def make_seq(K, reach=False):
                 g = ex.choice(f"group{k}", 2)
                 if kind == 0:
                     n = ref_request(g)
-                    await snd.send(req(g, n))
+                    await snd.send(mk(g, n))
                 else:
                     ex.assume(ref[g]["inflight"] is not None)
                     fail = ex.flag(f"fails{k}")
@@ -228,7 +249,7 @@ def make_seq(K, reach=False):
                         ref_complete(g)
                         m = ref_request(g)
                         gates[n][0].set()
-                        await snd.send(req(g, m))
+                        await snd.send(mk(g, m))
                 await asyncio.sleep(0.1)
             # drain: complete everything that is still in flight (reference bookkeeping first, then simply open every gate)
             for _ in range(2 * K + 2):
@@ -267,7 +288,7 @@ def make_seq(K, reach=False):
             ex.check(active == 0, f"group {g}: a distribution never finished although every gate was opened: {got}")
             if last_issued[g] is not None:
                 ex.check(bool(entered) and entered[-1] == last_issued[g], f"group {g}: the last request issued ({last_issued[g]}) is not the last one applied ({entered})")
-            if not racy:
+            if not racy and not overlap:   # overlapping groups: the property does not say whether they may delay each other
                 ex.check(got == exp, f"group {g}: distributions {got} differ from the one-at-a-time / latest-wins reference {exp}")
         ex.check(not state[0] and not state[1], f"bookkeeping not empty after everything completed: {state}")
     return fn
@@ -279,7 +300,9 @@ def instances(tier):
            I("step", "make_step", (), "one inductive step from every pre-state (2 groups)", budget_s=100, validate_every=5),
            I("seq-3", "make_seq", (3,), "every sequence of 3 events over 2 groups", budget_s=200, validate_every=50),
            I("seq-4", "make_seq", (4,), "every sequence of 4 events over 2 groups", budget_s=300, validate_every=200),
-           I("seq-5", "make_seq", (5,), "every sequence of 5 events over 2 groups", budget_s=300, validate_every=1000)]
+           I("seq-5", "make_seq", (5,), "every sequence of 5 events over 2 groups", budget_s=300, validate_every=1000),
+           I("seq-4-dups", "make_seq", (4, False, True), "4 events; a request may have exactly the content of the request in flight for its group", budget_s=200, validate_every=200),
+           I("seq-4-overlap", "make_seq", (4, False, False, True), "4 events over two overlapping but different groups {1,2} and {2,3}", budget_s=200, validate_every=200)]
     if tier != "quick":
         out += [I("seq-6", "make_seq", (6,), "6 events", budget_s=900, validate_every=5000),
                 I("seq-7", "make_seq", (7,), "7 events (budgeted)", budget_s=900, validate_every=20000, exhaustive=False)]
